@@ -18,19 +18,19 @@ Wedge(kind, x) ==
     [] kind = "se2"  -> << <<0, -x[3], x[1]>>, <<x[3], 0, x[2]>>, <<0, 0, 0>> >>
     [] kind = "so3"  -> Hat(x)
     [] kind = "se3"  -> LET H == Hat(<<x[4], x[5], x[6]>>) IN
-                        [i \in 1..4 |-> IF i <= 3 THEN H[i] \o <<x[i]>> ELSE <<0,0,0,0>>]
+                        FM([i \in 1..4 |-> IF i <= 3 THEN H[i] \o <<x[i]>> ELSE <<0,0,0,0>>])
     [] kind = "se23" -> LET H == Hat(<<x[7], x[8], x[9]>>) IN
-                        [i \in 1..5 |-> IF i <= 3 THEN H[i] \o <<x[3 + i], x[i]>> ELSE <<0,0,0,0,0>>]
+                        FM([i \in 1..5 |-> IF i <= 3 THEN H[i] \o <<x[3 + i], x[i]>> ELSE <<0,0,0,0,0>>])
     [] kind = "rn"   -> LET n == Len(x) IN
-                        [i \in 1..(n+1) |-> [j \in 1..(n+1) |-> IF j = n + 1 /\ i <= n THEN x[i] ELSE 0]]
+                        FM([i \in 1..(n+1) |-> [j \in 1..(n+1) |-> IF j = n + 1 /\ i <= n THEN x[i] ELSE 0]])
 Vee(kind, M) ==
   CASE kind = "so2"  -> << M[2][1] >>
     [] kind = "se2"  -> << M[1][3], M[2][3], M[2][1] >>
     [] kind = "so3"  -> << M[3][2], M[1][3], M[2][1] >>
     [] kind = "se3"  -> << M[1][4], M[2][4], M[3][4], M[3][2], M[1][3], M[2][1] >>
     [] kind = "se23" -> << M[1][5], M[2][5], M[3][5], M[1][4], M[2][4], M[3][4], M[3][2], M[1][3], M[2][1] >>
-    [] kind = "rn"   -> LET n == Len(M) - 1 IN [i \in 1..n |-> M[i][n + 1]]
-Unit(n, k) == [i \in 1..n |-> IF i = k THEN 1 ELSE 0]
+    [] kind = "rn"   -> LET n == Len(M) - 1 IN Fv([i \in 1..n |-> M[i][n + 1]])
+Unit(n, k) == Fv([i \in 1..n |-> IF i = k THEN 1 ELSE 0])
 
 Bracket(kind, x, y) == LET A == Wedge(kind, x) B == Wedge(kind, y) IN Vee(kind, MSub(MMul(A, B), MMul(B, A)))
 adm(kind, x) == LET n == Len(x) IN        \* matrix whose k-th column is [x, e_k]
